@@ -190,7 +190,11 @@ func (r *RegistryImpl) Begin(ctx context.Context, engine interface{}, readOnly b
 		tx  Transaction
 		err error
 	}
-	resultCh := make(chan txResult, 1)
+	// The channel is unbuffered on purpose: a send only succeeds while the
+	// caller below is still receiving, so a transaction that arrives after a
+	// timeout/cancel is never parked in the channel but rolled back by the
+	// goroutine that created it.
+	resultCh := make(chan txResult)
 
 	// Start transaction in a goroutine
 	go func() {
